@@ -56,7 +56,7 @@ TYPES = {
 KINDS_FOR_USE = {"int": "C_INT", "long": "C_LONG", "short": "C_SHORT", "long long": "C_LONG_LONG", "unsigned int": "C_INT",
                  "size_t": "C_SIZE_T", "int32_t": "C_INT32_T", "int64_t": "C_INT64_T", "float": "C_FLOAT", "double": "C_DOUBLE", "char": "C_CHAR"}
 
-IN_KINDS = {"cls_cptr", "val", "ptr_in", "ptr_inout", "ref_inout", "arr_in", "arr_inout", "implied", "cstr_in", "cstr_inout", "str_cref",
+IN_KINDS = {"cls_cptr", "cls_cref", "cls_ref", "val", "ptr_in", "ptr_inout", "ref_inout", "arr_in", "arr_inout", "implied", "cstr_in", "cstr_inout", "str_cref",
             "str_val", "str_cptr", "str_ref_inout", "str_ptr_inout", "vec_in", "vec_inout"}
 OUT_KINDS = {"ptr_inout", "ptr_out", "ref_inout", "ref_out", "arr_inout", "arr_out", "arr_out_fixed", "cstr_out", "cstr_inout",
              "str_ref_out", "str_ref_inout", "str_ptr_out", "str_ptr_inout", "vec_out", "vec_inout"}
@@ -210,7 +210,9 @@ def param_decl(p):
     if k == "ptr_in":
         return "const %s *%s" % (T, n)
     if k == "ptr_inout":
-        return "%s *%s" % (T, n) if not p.get("explicit") else "%s *%s +intent(inout)" % (T, n)
+        # cptr: the pointer itself is const (T * const name); the pointee stays writable, the default intent stays inout
+        star = "* const " if p.get("cptr") else "*"
+        return "%s %s%s" % (T, star, n) if not p.get("explicit") else "%s %s%s +intent(inout)" % (T, star, n)
     if k == "ptr_out":
         return "%s *%s +intent(out)" % (T, n)
     if k == "ref_inout":
@@ -230,7 +232,7 @@ def param_decl(p):
     if k == "cstr_out":
         return "char *%s +intent(out)+charlen(%d)" % (n, p["charlen"])
     if k == "cstr_inout":
-        return "char *%s +intent(inout)" % n
+        return ("char * const %s" if p.get("cptr") else "char *%s +intent(inout)") % n
     if k == "str_cref":
         return "const std::string &%s" % n
     if k == "str_val":
@@ -244,9 +246,13 @@ def param_decl(p):
     if k == "str_ptr_out":
         return "std::string *%s +intent(out)" % n
     if k == "str_ptr_inout":
-        return "std::string *%s" % n
+        return ("std::string * const %s" if p.get("cptr") else "std::string *%s") % n
     if k == "cls_cptr":
         return "const %s *%s" % (p["cls"], n)
+    if k == "cls_cref":
+        return "const %s &%s" % (p["cls"], n)
+    if k == "cls_ref":
+        return "%s &%s" % (p["cls"], n)
     if k == "len_hidden":
         return "int *%s +intent(out)+hidden" % n
     if k == "vec_in":
@@ -468,6 +474,8 @@ def impl_function(f, lang, qual=""):
             lines.append('    %s("%s", %s.data(), (long)%s.size()); vfD = vf_mix(vfD, %s(%s.data(), (long)%s.size()));' % (lf, n, n, n, hf, n, n))
         elif k == "cls_cptr":
             lines.append('    vf_log_i("%s", %s ? %s->serial : -1, 1); vfD = vf_mix(vfD, (unsigned long long)(%s ? %s->serial : -1));' % (n, n, n, n, n))
+        elif k in ("cls_cref", "cls_ref"):
+            lines.append('    vf_log_i("%s", %s.serial, 1); vfD = vf_mix(vfD, (unsigned long long)(%s.serial));' % (n, n, n))
         elif k in ("ptr_out", "ref_out", "arr_out", "arr_out_fixed", "cstr_out", "str_ref_out", "str_ptr_out", "vec_out", "len_hidden"):
             pass
         else:
@@ -676,6 +684,8 @@ def library_sources(lib):
                 h.append("namespace %s { %s }" % (f["ns"], d_) if f.get("ns") else d_)
     if lang == "c":
         h.append("#ifdef __cplusplus\n}\n#endif")
+    if lib.get("raw_header"):
+        h.append(lib["raw_header"])
     for n in reversed(ns):
         h.append("}")
     h.append("#endif")
@@ -709,6 +719,8 @@ def library_sources(lib):
             body = ["namespace %s {" % f["ns"]] + body + ["}"]
         c.extend(body)
         c.append("")
+    if lib.get("raw_impl"):
+        c.append(lib["raw_impl"])
     for n in reversed(ns):
         c.append("}")
     if lib.get("patterns"):
@@ -746,7 +758,7 @@ def model_call(f, args, this_serial=None):
             v = len(args[p["of"]])
             recv[n] = repr_scalar(v, T)
             d = dmix(d, h_scalar(v, T))
-        elif k == "cls_cptr":
+        elif k in ("cls_cptr", "cls_cref", "cls_ref"):
             v = args[n]                      # serial of the object passed
             recv[n] = "i:%d" % v
             d = dmix(d, v & M64)
